@@ -100,6 +100,9 @@ func (p *Parser) FromString(data string) error {
 
 func (p *Parser) parseString(data string) error {
 	scanner := bufio.NewScanner(strings.NewReader(data))
+	// A directive may be longer than bufio.MaxScanTokenSize (64 KiB). The whole
+	// configuration is already in memory, so any of its lines is allowed to fit.
+	scanner.Buffer(make([]byte, 0, bufio.MaxScanTokenSize), len(data)+1)
 	var linebuffer strings.Builder
 	inBackticks := false
 	for scanner.Scan() {
@@ -139,6 +142,10 @@ func (p *Parser) parseString(data string) error {
 			}
 			linebuffer.Reset()
 		}
+	}
+	if err := scanner.Err(); err != nil {
+		// never stop reading silently: the remaining directives would be dropped
+		return fmt.Errorf("failed to read directives after line %d: %w", p.currentLine, err)
 	}
 	if inBackticks {
 		return errors.New("backticks left open")
